@@ -162,6 +162,7 @@ class Report:
             "known_findings_hit": known_sigs,
         }
         cov.update(self.extra)
+        cov["repo_under_test"] = _repo_state()
         ev = {
             "property_id": self.prop_id,
             "tier": self.tier,
@@ -177,6 +178,18 @@ class Report:
         path = edir / f"{self.prop_id}.json"
         path.write_text(json.dumps(ev, indent=1, default=str))
         _validate(path)
+
+
+def _repo_state():
+    """which tree the run was about: commit, and whether the working tree differed from it (a seeded change applied)"""
+    src = os.environ.get("VERIF_REPO_SRC", "/repo/src")
+    top = os.path.dirname(src.rstrip("/"))
+    try:
+        dirty = subprocess.run(["git", "-C", top, "status", "--porcelain", "--untracked-files=no"], capture_output=True, text=True).stdout.strip()
+        head = subprocess.run(["git", "-C", top, "rev-parse", "HEAD"], capture_output=True, text=True).stdout.strip()
+        return {"path": top, "commit": head, "working_tree_modified": sorted(l[3:] for l in dirty.splitlines())}
+    except Exception as e:
+        return {"path": top, "error": str(e)}
 
 
 def _repo_commit():
